@@ -1,11 +1,16 @@
 import ZstdVerif.Model.Params
+import ZstdVerif.Model.LevelParams
 import Driver.Util
 namespace Driver.Params
-open ZstdVerif ZstdVerif.Gen ZstdVerif.Params
+open ZstdVerif ZstdVerif.Gen ZstdVerif.Params ZstdVerif.LevelParams
 
 structure St where
   kind : Char := 'c'
   ctx : Ctx := fresh cparams
+  /-- the context lives in caller-provided memory (`new s` = static CCtx, `new t` = static DCtx) -/
+  isStatic : Bool := false
+  /-- the separate ZSTD_CCtx_params object of `pset` / `papply` -/
+  par : Ctx := fresh cparams
 
 def plist (k : Char) : List PInfo := if k == 'd' then dparams else cparams
 
@@ -26,11 +31,39 @@ def facts (s : St) : String :=
   if v 10 != 0 && false then "" else
   s!"fcs={v 200} checksum={v 201} dictid=0"
 
+def cparStr (c : CPar) : String :=
+  s!"{c.windowLog},{c.chainLog},{c.hashLog},{c.searchLog},{c.minMatch},{c.targetLength},{c.strategy}"
+
+/-- `derive <entry> <level> <src> <dict>`: compression parameters an entry point that takes a RAW level derives (see harness/zvh_params.c
+for the entry numbers); `chk` = ZSTD_checkCParams refuses them, `acc` = the struct-level setter's verdict on them -/
+def derive (entry : Nat) (level : Int) (src dict : Nat) : String :=
+  let levelSet : Int := match cparams.find? (·.id == 100) with
+    | some p => (setVal p level).getD level
+    | none => level
+  let cp : Option CPar := match entry with
+    | 0 | 1 => some (getCParamsPublic level src dict)
+    | 2 => some (getCParamsInternal level src 0 .noAttachDict)
+    | 3 => some (getCParamsInternal level src dict .noAttachDict)
+    | 4 => some (getCParamsInternal level unknownSize 0 .noAttachDict)
+    | 5 => some (getCParamsInternal level unknownSize dict .noAttachDict)
+    | 6 | 7 => some (createCDictCParams level dict)
+    | 8 => some (fromCCtxParams level noOverride false 0 (if src = 0 then unknownSize else src) dict .noAttachDict 0)
+    | 9 => some (fromCCtxParams levelSet noOverride false 0 unknownSize 0 .noAttachDict 0)
+    | 10 => some (fromCCtxParams levelSet noOverride false 0 src 0 .noAttachDict 0)
+    | _ => none
+  match cp with
+  | none => "bad-op |"
+  | some c =>
+    let ok := checkCParams c
+    "ok cp=" ++ cparStr c ++ " chk=" ++ (if ok then "0" else "1") ++
+      (if entry ≤ 1 then " acc=" ++ (if ok then "ok" else "err:bound") else "") ++ " |"
+
 def step (s : St) (ws : List String) : St × String :=
   match ws with
   | ["new", k] =>
-      let c := k.front
-      let s' : St := { kind := c, ctx := fresh (plist c) }
+      let c0 := k.front
+      let c := if c0 == 's' then 'c' else if c0 == 't' then 'd' else c0
+      let s' : St := { kind := c, ctx := fresh (plist c), isStatic := c0 == 's' || c0 == 't' }
       (s', dump "ok" s')
   | ["set", id, v] =>
       match id.toInt?, v.toInt? with
@@ -41,7 +74,7 @@ def step (s : St) (ws : List String) : St × String :=
         | some k =>
           -- a CCtx_params object has no stage
           let ctx := if s.kind == 'p' then { s.ctx with started := false } else s.ctx
-          match setParam (plist s.kind) (s.kind != 'd') ctx k v with
+          match (if s.isStatic then setParamStatic else setParam) (plist s.kind) (s.kind != 'd') ctx k v with
           | .ok c => let s' := { s with ctx := c }; (s', dump "ok" s')
           | .error e => (s, dump (errStr e) s)
       | _, _ => (s, "bad-op")
@@ -97,6 +130,30 @@ def step (s : St) (ws : List String) : St × String :=
       else
         let s' := { s with ctx := endFrame s.ctx }
         (s', dump "ok" s')
+  | ["pset", id, v] =>
+      if s.kind != 'c' then (s, dump "bad-op" s) else
+      match id.toInt?, v.toInt? with
+      | some id, some v =>
+        if id < 0 then (s, dump "err:unsupported" s) else
+        match indexOfId cparams id.toNat with
+        | none => (s, dump "err:unsupported" s)
+        | some k =>
+          match setParam cparams true { s.par with started := false } k v with
+          | .ok c => let s' := { s with par := c }; (s', dump "ok" s')
+          | .error e => (s, dump (errStr e) s)
+      | _, _ => (s, "bad-op")
+  | ["papply"] =>
+      if s.kind != 'c' then (s, dump "bad-op" s) else
+      match applyParams s.ctx s.par with
+      | .ok c => let s' := { s with ctx := c }; (s', dump "ok" s')
+      | .error e => (s, dump (errStr e) s)
+  | ["applied", n] =>
+      if s.kind != 'c' then (s, dump "bad-op" s) else
+      -- ZSTD_compress2 of n bytes with the parameters in force (no dictionary): the compression parameters it applies
+      let s' := { s with ctx := endFrame s.ctx }
+      (s', dump ("ok ap=" ++ cparStr (appliedCParams s.ctx (n.toNat?.getD 0))) s')
+  | ["derive", e, lv, src, dict] =>
+      (s, derive (e.toNat?.getD 99) (lv.toInt?.getD 0) (src.toNat?.getD 0) (dict.toNat?.getD 0))
   | ["simple", _, _] =>
       if s.kind != 'c' then (s, dump "bad-op" s) else
       -- the simple API ignores every advanced parameter and leaves them untouched
